@@ -1,4 +1,5 @@
 import EraVerif.Proofs.Fetch
+import EraVerif.Proofs.FetchNode
 
 /-!
 # C19 — Block fetch requests are never lost and go only to peers that have the block
@@ -13,6 +14,10 @@ All theorems are about the labelled transition system `Model.Fetch.step?` (one e
 peers, blocks, requests, any interleaving (`RunTo h s`: `s` is reached from the initial state, `h` lists the states
 visited on the way, most recent first). The watch channel's version counter and every oneshot channel are explicit in
 the state.
+
+The second half (section "The acceptor") composes the queue with the consumer of `accept_block`, the per-connection
+`get_block` task of `gossip/runner.rs`, and with the store (`Model/FetchNode.lean`): there `succeed` / `fail` are no
+longer moves of the environment, and "completed only if queued" and "every failure path re-queues" are theorems.
 
 "Lowest missing block first" is proved in the form the code can guarantee: the block handed over **was the lowest
 requested block when the acceptor sampled the map**, and the acceptor's sample is stale only while a wake-up for it is
@@ -77,65 +82,8 @@ theorem stays_requested (s s' : State) (e : Event) (o : Option Vis) (n : Nat) (r
     (hs : step? s e = some (s', o)) (hn : aget s.reqs n = some r) :
     (aget s'.reqs n).isSome = true
     ∨ (e = .reqDone n ∧ r.st = .resolved true ∧ o = some (.done n))
-    ∨ (e = .reqCancel n ∧ r.cancelled = true ∧ o = some (.cancelled n)) := by
-  cases e with
-  | spawnReq m => simp only [step?] at hs; split at hs <;> cases hs; left; simp only [aget_aput]; split <;> simp [hn]
-  | cancelReq m => simp only [step?] at hs; split at hs <;> cases hs; left; simp only [aget_aput]; split <;> simp [hn]
-  | startAcc p => simp only [step?] at hs; split at hs <;> cases hs; left; simp [hn]
-  | cancelAcc p => simp only [step?] at hs; split at hs <;> cases hs; left; simp [hn]
-  | announce p f l => simp only [step?] at hs; cases hs; left; simp [hn]
-  | succeed hid =>
-    simp only [step?, doResolve] at hs; split at hs <;> simp at hs
-    obtain ⟨rfl, _⟩ := hs; left; simp [aget_resolveChan, hn]
-  | fail hid =>
-    simp only [step?, doResolve] at hs; split at hs <;> simp at hs
-    obtain ⟨rfl, _⟩ := hs; left; simp [aget_resolveChan, hn]
-  | reqInsert m =>
-    simp only [step?] at hs
-    split at hs <;> cases hs <;>
-    · left
-      simp only [doInsert, aget_aput]
-      split
-      · rfl
-      · split <;> simp [aget_resolveChan, hn]
-  | reqDone m =>
-    simp only [step?] at hs
-    split at hs
-    · rename_i c hm
-      cases hs
-      by_cases hmn : n = m
-      · subst hmn; rw [hn] at hm; cases hm; exact Or.inr (Or.inl ⟨rfl, rfl, rfl⟩)
-      · left; simp [aget_adel, hmn, hn]
-    · cases hs
-  | reqCancel m =>
-    simp only [step?] at hs
-    have key : ∀ (hm : ∃ st, aget s.reqs m = some ⟨st, true⟩), s' = doCancel s m → o = some (.cancelled m) →
-        (aget s'.reqs n).isSome = true ∨ (Event.reqCancel m = .reqDone n ∧ r.st = .resolved true ∧ o = some (.done n))
-          ∨ (Event.reqCancel m = .reqCancel n ∧ r.cancelled = true ∧ o = some (.cancelled n)) := by
-      intro ⟨st, hm⟩ hs' ho
-      by_cases hmn : n = m
-      · subst hmn; rw [hn] at hm; cases hm; exact Or.inr (Or.inr ⟨rfl, rfl, ho⟩)
-      · left; subst hs'
-        simp only [doCancel, aget_adel, hmn, if_false]
-        split <;> simp [aget_resolveChan, hn]
-    split at hs
-    · rename_i ch hm; cases hs; exact key ⟨_, hm⟩ rfl rfl
-    · rename_i ok hm; cases hs; exact key ⟨_, hm⟩ rfl rfl
-    · cases hs
-  | accSample p => simp only [step?] at hs; split at hs <;> cases hs; left; simp [hn]
-  | accChanged p =>
-    simp only [step?] at hs; split at hs
-    · split at hs <;> cases hs; left; simp [hn]
-    · cases hs
-  | accAvail p =>
-    simp only [step?] at hs; split at hs
-    · split at hs <;> cases hs; left; simp [hn]
-    · cases hs
-  | accRemove p =>
-    simp only [step?] at hs; split at hs
-    · split at hs <;> cases hs <;> (left; simp [hn])
-    · cases hs
-  | accAbort p => simp only [step?] at hs; split at hs <;> cases hs <;> (left; simp [hn])
+    ∨ (e = .reqCancel n ∧ r.cancelled = true ∧ o = some (.cancelled n)) :=
+  req_survives s s' e o n r hs hn
 
 /-- **failed_hold_is_offered_again.** If the connection holding a live request drops the sender (failure, timeout,
 disconnect), the requester is woken with `Disconnected`, its re-insertion step is enabled, and after it the block is
@@ -516,5 +464,304 @@ example : ∃ f es, FRunTo 2 10 10 f es ∧ es = [.spawnReq 10, .spawnReq 11, .c
   have r3 := FRunTo.step r2 (e := .setQueued 11) (f' := _) (out := _) rfl
   have r4 := FRunTo.step r3 (e := .queuedSeen 10) (f' := _) (out := _) rfl
   exact ⟨_, _, r4, rfl, by decide⟩
+
+/-! ## The acceptor: the per-connection `get_block` task (`gossip/runner.rs`) composed with the queue and the store
+
+`Model/FetchNode.lean` adds to the queue LTS the consumer of `Queue::accept_block`: one `get_block` task per hold
+(`rpc` → checks in the code's order → `parked` inside `queue_block` → `try_push`; `send_resp.send(())`), the store's
+`queued().next()` and the ghost set `wanted` (blocks asked for and not given up by the requester). `succeed` / `fail`
+of a hold are no longer actions of an unconstrained environment: only the owning task performs them. All theorems are
+for every reachable state of the composition (`NReach`): any number of peers, blocks, tasks, any interleaving of the
+queue's events with responses (valid, empty, wrong number, invalid), rpc errors, timeouts / disconnects / cancellations
+at either await point, and other writers of the store. -/
+
+/-- `s` is reachable in the composition, from a store whose next block is some `start`. -/
+def NReach (s : NState) : Prop := ∃ start, NRun start s
+
+/-- The queue inside a reachable node state is a reachable queue state: every theorem above applies to `s.q`. -/
+theorem node_projects_to_queue (s : NState) (hr : NReach s) : Reach s.q := by
+  obtain ⟨start, run⟩ := hr
+  exact run.inv.qreach
+
+/-- **task_owns_hold.** Every sender handed to a connection by `accept_block` is owned by exactly one live `get_block`
+task (keyed by the hold), and every live task owns a sender: "held by a connection" always means "held by a task that
+has neither completed nor failed". -/
+theorem task_owns_hold (s : NState) (hr : NReach s) (h : Nat) :
+    (aget s.tasks h).isSome = (aget s.q.holds h).isSome := by
+  obtain ⟨start, run⟩ := hr
+  exact run.inv.task_hold h
+
+/-- **completed_implies_queued.** In every reachable state, a request whose holder has sent the completion signal
+(`send_resp.send(())`, the requester is about to return `Ok(())`) is a request for a block that **is queued in the
+store** (`n < queued().next()`). -/
+theorem completed_implies_queued (s : NState) (hr : NReach s) (n : Nat) (r : Req)
+    (hn : aget s.q.reqs n = some r) (hst : r.st = .resolved true) : n < s.queuedNext := by
+  obtain ⟨start, run⟩ := hr
+  exact run.inv.done_queued n r hn hst
+
+/-- `Queue::request` returns `Ok(())` only for a queued block. -/
+theorem done_only_if_queued (s s' : NState) (hr : NReach s) (n : Nat) (o : Option Vis)
+    (hs : nstep? s (.q (.reqDone n)) = some (s', o)) : o = some (.done n) ∧ n < s'.queuedNext := by
+  simp only [nstep?, Event.holderOnly, Bool.false_eq_true, if_false] at hs
+  cases hq : step? s.q (.reqDone n) with
+  | none => simp [hq] at hs
+  | some x =>
+    obtain ⟨q', o'⟩ := x
+    simp [hq] at hs
+    obtain ⟨rfl, rfl⟩ := hs
+    simp only [step?] at hq
+    split at hq
+    · rename_i c hn; cases hq; exact ⟨rfl, completed_implies_queued s hr n _ hn rfl⟩
+    · cases hq
+
+/-- **completion_sent_after_push.** The only step that signals completion is the task's `queue` step; it is enabled
+only when the task is parked in `queue_block` (all checks passed) and `queued().next() ≥ n`; it pushes the block if it
+is the next one and, in the same atomic step, resolves the requester (which is the requester of the held block): after
+it the block is queued, the task and its hold are gone. -/
+theorem completion_sent_after_push (s s' : NState) (hr : NReach s) (h : Nat) (o : Option Vis)
+    (hs : nstep? s (.queue h) = some (s', o)) :
+    ∃ hd, aget s.q.holds h = some hd ∧ aget s.tasks h = some .parked ∧ hd.num ≤ s.queuedNext ∧
+      hd.num < s'.queuedNext ∧ s'.queuedNext = tryPush s.queuedNext hd.num ∧
+      aget s'.tasks h = none ∧ aget s'.q.holds h = none ∧
+      ∀ n r, aget s.q.reqs n = some r → r.st = .waiting hd.chan →
+        n = hd.num ∧ aget s'.q.reqs n = some ⟨.resolved true, r.cancelled⟩ := by
+  have hqi := (node_projects_to_queue s hr).choose_spec.inv
+  simp only [nstep?] at hs
+  split at hs
+  · rename_i hd ht hh
+    split at hs
+    · rename_i hle
+      split at hs
+      · cases hs
+      · rename_i q1 o1 hq
+        cases hs
+        obtain ⟨hd', hh', e1, e2, _⟩ := resolve_frame s.q q1 h true o1 (by simpa using hq)
+        rw [hh] at hh'; cases hh'
+        refine ⟨hd, hh, ht, hle, ?_, rfl, by simp [aget_adel], by simp [e1, aget_adel], ?_⟩
+        · simp only [tryPush]; split <;> omega
+        · intro n r hn hw
+          refine ⟨woken_is_held_block s.q hqi h hd hh n r hn hw, ?_⟩
+          simp [e2, aget_resolveChan, hn, hw]
+    · cases hs
+  · cases hs
+
+/-- **request_never_lost_node** (`request_never_lost` lifted to the composition). In every reachable state, every
+block the requester has asked for and not given up is in exactly one of these situations: its request has returned
+and the block is queued in the store; or its request is live, not cancelled, and (a) on offer in the map and held by
+nobody, or (b) held by exactly one hold, not on offer, and that hold is owned by a live `get_block` task (one that has
+neither completed nor failed), or (c) about to (re-)insert itself — the insertion is enabled and puts the block on
+offer, still wanted, or (d) completed by its holder, and then the block is queued. -/
+theorem request_never_lost_node (s : NState) (hr : NReach s) (n : Nat) (hw : n ∈ s.wanted) :
+    (aget s.q.reqs n = none ∧ n < s.queuedNext)
+    ∨ ∃ r, aget s.q.reqs n = some r ∧ r.cancelled = false ∧
+      ((∃ ch, r.st = .waiting ch ∧
+          ((aget s.q.map n = some ch ∧ ∀ h hd, aget s.q.holds h = some hd → hd.chan ≠ ch) ∨
+           (aget s.q.map n ≠ some ch ∧ ∃ h hd, aget s.q.holds h = some hd ∧ hd.chan = ch ∧ hd.num = n ∧
+              (∃ t, aget s.tasks h = some t) ∧
+              ∀ h' hd', aget s.q.holds h' = some hd' → hd'.chan = ch → h' = h)))
+       ∨ ((r.st = .starting ∨ r.st = .resolved false) ∧
+          ∃ s', nstep? s (.q (.reqInsert n)) = some (s', none) ∧ (aget s'.q.map n).isSome = true ∧ n ∈ s'.wanted)
+       ∨ (r.st = .resolved true ∧ n < s.queuedNext)) := by
+  have hq := node_projects_to_queue s hr
+  obtain ⟨start, run⟩ := hr
+  have hi := run.inv
+  cases hn : aget s.q.reqs n with
+  | none =>
+    left
+    rcases hi.wanted_cov n hw with a | a
+    · simp [hn] at a
+    · exact ⟨rfl, a⟩
+  | some r =>
+    right
+    refine ⟨r, rfl, ?_, ?_⟩
+    · cases hc : r.cancelled with
+      | false => rfl
+      | true => exact absurd hw (hi.cancelled_unwanted n r hn hc)
+    · rcases request_never_lost s.q hq n r hn with ⟨ch, hst, hcase⟩ | ⟨hst, s', hs', hm', _⟩ | ⟨hst, _⟩
+      · refine Or.inl ⟨ch, hst, ?_⟩
+        rcases hcase with a | ⟨hnm, h, hd, hh, hc, hnum, huniq⟩
+        · exact Or.inl a
+        · refine Or.inr ⟨hnm, h, hd, hh, hc, hnum, ?_, huniq⟩
+          have := hi.task_hold h
+          rw [hh] at this
+          cases ht : aget s.tasks h with
+          | none => simp [ht] at this
+          | some t => exact ⟨t, rfl⟩
+      · refine Or.inr (Or.inl ⟨hst, ⟨{ s with q := s' }, ?_, hm', hw⟩⟩)
+        simp [nstep?, Event.holderOnly, hs', spawnTask, updWanted]
+      · exact Or.inr (Or.inr ⟨hst, hi.done_queued n r hn hst⟩)
+
+/-- The events by which the task of hold `h`, in state `t`, holding block `num`, ends without completing: dropped at
+an await point (`get_block_timeout`, peer disconnected, connection or node cancelled — in `rpc` or while parked in
+`queue_block`), rpc error, empty response, a block with another number, a block with the right number that does not
+verify. -/
+def FailureOf (h : Nat) (t : GetSt) (num : Nat) (e : NEvent) : Prop :=
+  e = .abort h ∨
+  (t = .rpc ∧ (e = .resp h .err ∨ e = .resp h .empty ∨
+    ∃ m v, e = .resp h (.block m v) ∧ (m ≠ num ∨ v = false)))
+
+/-- **acceptor_failure_requeues.** Every failure path of the acceptor returns the request to the queue: in every
+reachable state, for every live task and every failing event of it (`FailureOf`), the event is enabled; after it the
+task and its hold are gone, the store and `wanted` are unchanged, the connection's `accept_block` call (if any) is
+cancelled, the requester of the held block has been woken with `Disconnected`; its re-insertion is enabled and puts the
+block on offer under a fresh channel that no connection holds. -/
+theorem acceptor_failure_requeues (s : NState) (hr : NReach s) (h : Nat) (hd : Hold) (t : GetSt) (r : Req)
+    (e : NEvent) (hh : aget s.q.holds h = some hd) (ht : aget s.tasks h = some t)
+    (hn : aget s.q.reqs hd.num = some r) (hw : r.st = .waiting hd.chan) (hf : FailureOf h t hd.num e) :
+    ∃ s1, nstep? s e = some (s1, none) ∧ aget s1.tasks h = none ∧ aget s1.q.holds h = none ∧
+      s1.wanted = s.wanted ∧ s1.queuedNext = s.queuedNext ∧
+      aget s1.q.reqs hd.num = some ⟨.resolved false, r.cancelled⟩ ∧
+      (∀ a, aget s1.q.accs hd.peer = some a → a.cancelled = true) ∧
+      ∃ s2, nstep? s1 (.q (.reqInsert hd.num)) = some (s2, none) ∧ aget s2.q.map hd.num = some s1.q.nextChan ∧
+        aget s2.q.reqs hd.num = some ⟨.waiting s1.q.nextChan, r.cancelled⟩ ∧ s2.wanted = s.wanted ∧
+        (∀ h' hd', aget s2.q.holds h' = some hd' → hd'.chan ≠ s1.q.nextChan) := by
+  have hqi := (node_projects_to_queue s hr).choose_spec.inv
+  -- every failing event is `failTask`
+  let q1 : State := { s.q with holds := adel s.q.holds h, reqs := resolveChan s.q.reqs hd.chan false }
+  have hq1 : step? s.q (.fail h) = some (q1, none) := by simp [step?, doResolve, hh, q1]
+  let s1 : NState := { s with q := cancelConn q1 hd.peer, tasks := adel s.tasks h }
+  have hft : failTask s h = some s1 := by simp [failTask, hh, hq1, s1]
+  have he : nstep? s e = some (s1, none) := by
+    rcases hf with rfl | ⟨rfl, rfl | rfl | ⟨m, v, rfl, hmv⟩⟩
+    · simp [nstep?, ht, hft]
+    · simp [nstep?, ht, hh, hft]
+    · simp [nstep?, ht, hh, hft]
+    · simp only [nstep?, ht, hh]
+      rcases hmv with hm | hv
+      · simp [hm, hft]
+      · subst hv; simp [hft]
+  obtain ⟨c1, c2, c3, c4, c5⟩ := cancelConn_frame q1 hd.peer
+  have hr1 : aget s1.q.reqs hd.num = some ⟨.resolved false, r.cancelled⟩ := by
+    simp [s1, c1, q1, aget_resolveChan, hn, hw]
+  refine ⟨s1, he, by simp [s1, aget_adel], by simp [s1, c2, q1, aget_adel], rfl, rfl, hr1, ?_, ?_⟩
+  · intro a ha
+    simp only [s1, cancelConn] at ha
+    split at ha
+    · rename_i q' o hc
+      simp only [step?] at hc
+      split at hc <;> cases hc
+      simp [aget_aput] at ha
+      subst ha; rfl
+    · rename_i hc
+      simp only [step?] at hc
+      split at hc
+      · rename_i hnone; rw [hnone] at ha; cases ha
+      · simp at hc
+  · refine ⟨{ s1 with q := doInsert s1.q hd.num r.cancelled }, ?_, ?_, ?_, rfl, ?_⟩
+    · simp [nstep?, Event.holderOnly, step?, hr1, spawnTask, updWanted]
+    · simp [doInsert, aget_aput]
+    · simp [doInsert, aget_aput]
+    · intro h' hd' hh' hc
+      have hh'' : aget (adel s.q.holds h) h' = some hd' := by simpa [doInsert, s1, c2, q1] using hh'
+      simp only [aget_adel] at hh''
+      split at hh''
+      · cases hh''
+      · have := (hqi.fresh_hold h' hd' hh'').1
+        simp [s1, c4, q1] at hc; omega
+
+/-- A valid response with the right number parks the task inside `queue_block` without touching the sender: the hold,
+the request and the store are unchanged (nothing is signalled before the block is queued). -/
+theorem valid_response_parks (s : NState) (h : Nat) (hd : Hold) (hh : aget s.q.holds h = some hd)
+    (ht : aget s.tasks h = some .rpc) :
+    nstep? s (.resp h (.block hd.num true)) = some ({ s with tasks := aput s.tasks h .parked }, none) := by
+  simp [nstep?, ht, hh]
+
+/-- A parked task cannot complete before the predecessors of its block are queued. -/
+theorem parked_waits_for_predecessors (s : NState) (h : Nat) (hd : Hold) (hh : aget s.q.holds h = some hd)
+    (hlt : s.queuedNext < hd.num) : nstep? s (.queue h) = none := by
+  simp only [nstep?]
+  split
+  · rename_i hd' _ hh'
+    rw [hh] at hh'; cases hh'
+    have : ¬ hd.num ≤ s.queuedNext := by omega
+    simp [this]
+  · rfl
+
+/-- `Model.Fetch.nQuiescent` (what the node driver evaluates at the end of every step): no future of the queue and no
+parked task can make a step. -/
+theorem nQuiescent_iff (s : NState) :
+    nQuiescent s = true ↔
+      (∀ e : Event, e.isInternal = true → nstep? s (.q e) = none) ∧ (∀ h, nstep? s (.queue h) = none) := by
+  constructor
+  · intro hq
+    simp only [nQuiescent, List.all_eq_true, Option.isNone_iff_eq_none, nInternalEvents, List.mem_append,
+      List.mem_map] at hq
+    constructor
+    · intro e he
+      have hs : step? s.q e = none := by
+        have hqq : quiescent s.q = true := by
+          simp only [quiescent, List.all_eq_true, Option.isNone_iff_eq_none]
+          intro e' he'
+          have := hq (.q e') (Or.inl ⟨e', he', rfl⟩)
+          simp only [nstep?] at this
+          split at this
+          · rename_i hho
+            cases e' <;> simp [Event.holderOnly] at hho <;> simp [internalEvents] at he'
+          · split at this
+            · assumption
+            · cases this
+        exact (quiescent_iff_idle s.q).mp hqq e he
+      simp [nstep?, hs]
+    · intro h
+      cases ht : aget s.tasks h with
+      | none => simp [nstep?, ht]
+      | some t => exact hq (.queue h) (Or.inr ⟨h, mem_akeys_of_aget _ _ _ ht, rfl⟩)
+  · intro ⟨h1, h2⟩
+    simp only [nQuiescent, List.all_eq_true, Option.isNone_iff_eq_none, nInternalEvents, List.mem_append,
+      List.mem_map]
+    intro e he
+    rcases he with ⟨e', he', rfl⟩ | ⟨h, _, rfl⟩
+    · apply h1
+      simp only [internalEvents, List.mem_append, List.mem_flatMap] at he'
+      rcases he' with ⟨n, _, hn⟩ | ⟨p, _, hp⟩
+      · simp at hn; rcases hn with rfl | rfl | rfl <;> rfl
+      · simp at hp; rcases hp with rfl | rfl | rfl | rfl | rfl <;> rfl
+    · exact h2 h
+
+/-! ### Non-vacuity for the composition -/
+
+/-- Store at block 5; peers 0 and 1 connected; blocks 5 and 6 requested; peer 0 (announces 5) is handed 5, peer 1
+(announces 5..6) is handed 6 and delivers it at once: its task parks in `queue_block` behind block 5. -/
+def nexRun : List NEvent :=
+  [.q (.startAcc 0), .q (.startAcc 1), .q (.announce 0 5 (some 5)), .q (.announce 1 5 (some 6)),
+   .q (.spawnReq 5), .q (.reqInsert 5), .q (.accSample 0), .q (.accAvail 0), .q (.accRemove 0),
+   .q (.spawnReq 6), .q (.reqInsert 6), .q (.accSample 1), .q (.accAvail 1), .q (.accRemove 1),
+   .resp 1 (.block 6 true)]
+
+theorem nreach_of_exec (start : Nat) (es : List NEvent) (s : NState) (h : nexec? (NState.init start) es = some s) :
+    NReach s := ⟨start, nrun_exec NRun.init es h⟩
+
+/-- `request_never_lost_node` case (b), `acceptor_failure_requeues` (disconnect while parked in `queue_block`, and an
+invalid block with the right number), `parked_waits_for_predecessors`: a reachable state with block 5 held by a task
+in `rpc`, block 6 held by a parked task, both wanted, neither queued. -/
+example : ∃ s, NReach s ∧ s.wanted = [6, 5] ∧ s.queuedNext = 5 ∧
+    aget s.tasks 0 = some .rpc ∧ aget s.tasks 1 = some .parked ∧
+    aget s.q.holds 0 = some ⟨0, 5, 0⟩ ∧ aget s.q.holds 1 = some ⟨1, 6, 1⟩ ∧
+    aget s.q.reqs 5 = some ⟨.waiting 0, false⟩ ∧ aget s.q.reqs 6 = some ⟨.waiting 1, false⟩ ∧
+    FailureOf 1 .parked 6 (.abort 1) ∧ FailureOf 0 .rpc 5 (.resp 0 (.block 5 false)) ∧
+    nstep? s (.queue 1) = none :=
+  ⟨_, nreach_of_exec 5 nexRun _ rfl, by decide, by decide, by decide, by decide, by decide, by decide, by decide,
+    by decide, Or.inl rfl, Or.inr ⟨rfl, Or.inr (Or.inr ⟨5, false, rfl, Or.inr rfl⟩)⟩, by decide⟩
+
+/-- `completion_sent_after_push`, `completed_implies_queued`, `done_only_if_queued`: peer 0 delivers block 5; its task
+queues it and completes; then the parked task of peer 1 queues block 6 and completes; both requests return `Ok(())`
+with both blocks queued. -/
+example : ∃ s s' o, NReach s ∧ nstep? s (.queue 1) = some (s', o) ∧ s'.queuedNext = 7 ∧
+    aget s'.q.reqs 6 = some ⟨.resolved true, false⟩ ∧
+    ∃ s'', nstep? s' (.q (.reqDone 6)) = some (s'', some (.done 6)) :=
+  ⟨_, _, _, nreach_of_exec 5 (nexRun ++ [.resp 0 (.block 5 true), .queue 0]) _ rfl, rfl, by decide, by decide,
+    _, rfl⟩
+
+/-- `request_never_lost_node`, first case: a wanted block whose request has returned (the block is queued). -/
+example : ∃ s, NReach s ∧ 5 ∈ s.wanted ∧ aget s.q.reqs 5 = none ∧ 5 < s.queuedNext :=
+  ⟨_, nreach_of_exec 5 (nexRun ++ [.resp 0 (.block 5 true), .queue 0, .q (.reqDone 5)]) _ rfl,
+    by decide, by decide, by decide⟩
+
+/-- After the parked task of peer 1 is dropped (disconnect), block 6 is re-inserted, and — block 5 still being with
+peer 0 — is handed to a third peer that announces it. -/
+example : ∃ s, NReach s ∧ aget s.q.holds 2 = some ⟨2, 6, 2⟩ ∧ aget s.tasks 2 = some .rpc ∧ aget s.tasks 1 = none :=
+  ⟨_, nreach_of_exec 5 (nexRun ++ [.abort 1, .q (.reqInsert 6), .q (.startAcc 2), .q (.announce 2 5 (some 6)),
+      .q (.accSample 2), .q (.accAvail 2), .q (.accRemove 2)]) _ rfl, by decide, by decide, by decide⟩
+
 
 end EraVerif.Props.C19
